@@ -252,7 +252,7 @@ func (w *worker) do(task []byte, timeout time.Duration) TaskOutcome {
 	case r := <-ch:
 		if r.err != nil {
 			_ = w.cmd.Wait()
-			return TaskOutcome{Crashed: true, Stderr: tail(w.stderr.String(), 6000)}
+			return TaskOutcome{Crashed: true, Stderr: tail(w.stderr.String(), 40000)}
 		}
 		return TaskOutcome{Result: json.RawMessage(bytes.TrimSpace(r.line))}
 	case <-timer:
@@ -263,7 +263,7 @@ func (w *worker) do(task []byte, timeout time.Duration) TaskOutcome {
 		case <-time.After(3 * time.Second):
 		}
 		_ = w.cmd.Process.Kill()
-		return TaskOutcome{TimedOut: true, Stderr: tail(w.stderr.String(), 12000)}
+		return TaskOutcome{TimedOut: true, Stderr: tail(w.stderr.String(), 40000)}
 	}
 }
 
